@@ -171,6 +171,14 @@ class PoolWorld:
             if use_chatty:
                 self.model = chatty(self.model)
         self.X = np.array(sc["X"], dtype=float)
+        if self.entry["flags"].get("kernel_X"):
+            self.X = self.kernel(self.X)
+
+    @staticmethod
+    def kernel(X):
+        from sklearn.metrics.pairwise import rbf_kernel
+
+        return np.ascontiguousarray(rbf_kernel(X, X, gamma=0.5), dtype=float)
 
     def fit_model(self, y, sample_weight=None):
         """The caller pre-fits the model (fit_* = False protocol)."""
@@ -518,6 +526,8 @@ class C05Check(PoolCheckBase):
         ops = []
         for _ in range(g.pick([2, 3, 4, 6])):
             op = {"label": g.chance(0.6), "batch": 1 if e["flags"].get("batch1") else g.pick([1, 1, 2, 3]), "prefit": g.chance(0.3) and not e["flags"].get("noprefit"), "ru": g.chance(0.5)}
+            # the caller may also fit the model itself and still leave the fit flag at its default (True)
+            op["caller_fits"] = bool(op["prefit"]) or g.chance(0.25)
             if "sample_weight" in ps and g.chance(0.4):
                 op["sw"] = [round(g.uniform(0.1, 2.0), 3) for _ in range(n)]
             if "utility_weight" in ps and g.chance(0.4):
@@ -573,6 +583,8 @@ class C05Check(PoolCheckBase):
         for t, op in enumerate(sc["ops"]):
             if sc.get("swap_data") and t == len(sc["ops"]) // 2 and t > 0:
                 X = np.array(sc["X2"], dtype=float)
+                if w.entry["flags"].get("kernel_X"):
+                    X = w.kernel(X)
                 w.X = X
                 y = np.full(len(X), np.nan)
                 k = min(2, len(X) - 1)
@@ -597,7 +609,7 @@ class C05Check(PoolCheckBase):
             if kw:
                 ctx.fault("optional_args")
             prefit = bool(op.get("prefit")) and w.arg and w.fitflag
-            if prefit:
+            if (prefit or op.get("caller_fits")) and w.arg:
                 try:
                     w.fit_model(y, kw.get("sample_weight"))
                     ctx.fault("prefit_model")
